@@ -66,7 +66,7 @@ def _c15_post(results):
 
 PROPS.update({
     "C03": dict(
-        sub="c03", cfgs=["D", "C"], rule="every finite non-negative float of the stated sets is rendered three ways (shortest and 9/17 significant digits by core::fmt, full exact expansion by the harness' naturals) and parsed back by the real code; bits must be identical. Non-trivial: the input leaves the plain fast path.",
+        sub="c03", cfgs=["D", "C"], rule="every finite non-negative float of the stated sets is rendered three ways (shortest and 9/17 significant digits by core::fmt, full exact expansion by the harness' naturals), each written in scientific and in positional notation (what `{:e}` and `{}` print), and parsed back by the real code; bits must be identical. Non-trivial: the input leaves the plain fast path.",
         exhaustive_over={"quick": "f64: 2047 binades x ~220 patterns; f32: 255 binades x ~150 patterns and four complete binades (2^25 values); x 3 renderings",
                          "thorough": "f32: ALL 2^31-2^23 finite non-negative values x 3 renderings; f64: 2047 binades x ~4200 patterns + complete low-20-bit sweeps in 4 binades"},
         assumptions=ASSUME_EXACT + ["core::fmt renders shortest / fixed-precision digits correctly (cross-checked by the exact oracle on every case judged in full mode)"]),
@@ -93,7 +93,7 @@ PROPS.update({
         assumptions=ASSUME_EXACT),
     "C09": dict(
         sub="c09", cfgs=FIVE, rule="value-sorted chains are generated (order re-asserted exactly by the harness) and parsed; bits of adjacent elements must be non-decreasing. No expected values. Non-trivial: more than 15 digits or |exponent| > 22.",
-        exhaustive_over={"quick": "(1) sorted SEAM significand list with 4 in-between truncated elements per step at every q in [-365,330]; (2) same digits across consecutive exponents; (3) runs of 4 consecutive floats x patterns x every binade with below/at/above-midpoint elements; (4) far-digit chains d=0..9",
+        exhaustive_over={"quick": "(1) sorted SEAM significand list with 4 in-between truncated elements per step at every q in [-365,330]; (2) same digits across consecutive exponents; (3) runs of 4 consecutive floats x patterns x every binade: exact, midpoint - unit, midpoint - far digit, midpoint, midpoint + far digit, midpoint + unit (unit steps are integer steps for integer midpoints); (4) far-digit chains d=0..9",
                          "thorough": "512 extra patterns"},
         assumptions=["chain order is established by exact decimal comparison in the harness; a generator error is a machinery failure"]),
     "C10": dict(
@@ -117,7 +117,7 @@ PROPS.update({
         assumptions=ASSUME_EXACT[:1] + ["a panic of the stage on meaningless triples in debug builds is recorded, not judged (a panic is not a guess)"]),
     "C12": dict(
         sub="c12", cfgs=["D", "C", "A", "CA"],
-        rule="every big-integer operation is executed on every member of the LIMBS operand family and compared with schoolbook naturals; overflow of the fixed capacity must be reported (stack back-end), the heap back-end may report it but never return a wrong value. Capacity is read from the crate. Preconditions as the property states them (non-zero factors, normalised operands for hi64/compare/overflow judgement).",
+        rule="every big-integer operation is executed on every member of the LIMBS operand family and compared with schoolbook naturals; a result within the design capacity (BIGINT_LIMBS, read from the crate) must be returned by both back-ends for vectors built with the crate's constructors; beyond it the stack back-end must and the heap back-end may report failure, never a wrong value. Capacity is read from the crate. Preconditions as the property states them (non-zero factors, normalised operands for hi64/compare/overflow judgement).",
         exhaustive_over={"quick": "LIMBS (~27k vectors: all <=3-limb vectors over 10 limb values, constant and one-hot vectors at lengths 4-6, 30-32, cap-2..cap) x {unary, small_add/mul x 10 scalars, small_add_from, shl_bits}; ~490-operand normalised sub-family squared x {compare, long_mul, large_mul, large_add_from x 5 offsets}; pow5 for every n in 0..=1200 x 3 operands; Bigint::pow(2|5|10, n); shl for every n in 0..=64*cap+1; shl_limbs up to cap+1",
                          "thorough": "larger sub-family, pow to 1800"},
         assumptions=["64-bit limbs (host)", "naturals in harness/core are correct (multiplication self-consistent with the decimal tests)"]),
@@ -130,7 +130,7 @@ PROPS.update({
     "C14": dict(
         sub="c14", cfgs=ALL8,
         rule="every table entry and on-demand power reachable through public items of each configuration is recomputed from its definition with naturals (division self-checked by multiplication) and compared; complete finite set.",
-        exhaustive_over="651 x 128-bit Eisel-Lemire entries (definition and semantic bound), 28+20 integer powers, 11+23 float powers, 5^135 and its step (non-compact); 10+66 Bellerophon significands with exponents and 10 integers (compact); pow_fast_path(k) for every k in all 8 configurations (table, std powf, bundled libm); bigint::pow(1,n) n<=200; parse_mantissa chunks of 1..19 digits",
+        exhaustive_over="651 x 128-bit Eisel-Lemire entries (definition and semantic bound), 28+20 integer powers, 11+23 float powers, 5^135 and its step (non-compact); 10+66 Bellerophon significands with exponents and 10 integers (compact); pow_fast_path(k) for every k the fast path can consume (0..=max(MAX_EXPONENT_FAST_PATH, -MIN_EXPONENT_FAST_PATH), read from the crate) in all 8 configurations (table, std powf, bundled libm); bigint::pow(1,n) n<=200; parse_mantissa chunks of 1..19 digits",
         assumptions=["the definitions are those of etc/lemire_table.py / etc/bellerophon_table.py as restated in the property"]),
     "C17": dict(
         sub="c17", cfgs=["D"],
@@ -168,7 +168,7 @@ PROPS.update({
 PROPS.update({
     "C16": dict(
         custom="c16", cfgs=FIVE,
-        rule="a base alphabet of ~250 inputs covering every path class is parsed (1) through every iterator shape (Chain split at every position, Filter with separators in every 1-3-periodic pattern, Skip/Take, SkipWhile/TakeWhile, Rev, wrapped VecDeque, LinkedList, Flatten, a deep-cloning iterator with size_hint (0,None)) and at every alignment offset on heap and stack; (2) after every ordered pair / triple of earlier calls with the stack painted 0x00/0xFF/0xA5; (3) under loom in every call-level interleaving of 2x2, 3x1 and 2x3 callers; (4) from 16 free-running threads and under Miri's race detector. Every result must equal the slice-iterator result computed on a fresh thread.",
+        rule="a base alphabet of ~250 inputs covering every path class is parsed (1) through every iterator shape (Chain split at every position, Filter with separators in every 1-3-periodic pattern, Skip/Take, SkipWhile/TakeWhile, Rev, wrapped VecDeque, LinkedList, Flatten, a deep-cloning iterator with size_hint (0,None)) and at every alignment offset on heap and stack; (2) after every ordered pair / triple of earlier calls with the stack painted 0x00/0xFF/0xA5; (3) under loom in every call-level interleaving of 2x2, 3x1 and 2x3 callers; (4) from 16 free-running threads (the alphabet in rotated orders, and a fast-path hammer of 400 k iterations per thread over 360 short inputs of both formats - a stress pass, i.e. sampling of schedules, that checks the independence premise) and under Miri's race detector. Every result must equal the slice-iterator result computed on a fresh thread.",
         exhaustive_over={"quick": "shapes x ~250 inputs x 2 formats; all ordered pairs over the alphabet + 21^3 triples x 3 paints; loom: all interleavings (6225 executions for 3x1, all 20 publication orders for 2x3); Miri with 2 schedule seeds",
                          "thorough": "45^3 triples, loom also in compact and alloc builds, 8 Miri seeds, 40 rounds of free-running threads"},
         assumptions=["intra-call interleavings are covered by independence (calls share no writable memory), a premise checked by the race detector and free-running threads rather than enumerated",
